@@ -183,6 +183,42 @@ def heteroskedastic(S, N, nn, noise_model_training):
     S.prove_eq(mc2, Cs + Rm2, "call-time noise replaces the heteroskedastic noise")
 
 
+def hetero_indices(S, N, T, index, bound):
+    """HeteroskedasticNoise(noise_model, noise_indices=i): a multi-output noise model of which output i is the (raw) noise;
+       R = diag(constraint.transform(mean[:, i])), hence at least the constraint's lower bound"""
+    from gpytorch.likelihoods.noise_models import HeteroskedasticNoise
+    from gpytorch.likelihoods.gaussian_likelihood import _GaussianLikelihoodBase
+    from gpytorch.distributions import MultitaskMultivariateNormal
+    from gpytorch.constraints import GreaterThan
+    from symten import sym_softplus
+
+    class NoiseModel(gpytorch.Module):
+        def __init__(self_):
+            super().__init__()
+            self_.register_parameter("raw", torch.nn.Parameter(S.randn(N, T, scale=1.5), requires_grad=False))
+
+        def forward(self_, x):
+            return MultitaskMultivariateNormal(self_.raw, torch.eye(N * T))
+
+    nm = NoiseModel()
+    Raw = S.sym_tensor(nm.raw, "rawnoise")
+    lik = _GaussianLikelihoodBase(HeteroskedasticNoise(nm, noise_indices=index, noise_constraint=GreaterThan(bound) if bound else None))
+    lb = bound or 1e-4
+    mean, Ms, C, Cs = _dist(S, N, ())
+    with S.mode():
+        d = MultivariateNormal(mean, C)
+        mc = lik(d, torch.zeros(N, 1)).covariance_matrix
+    R = np.array([sym_softplus(Raw[i, index]) + Sym.const(lb) for i in range(N)], dtype=object)
+    Rm = np.empty((N, N), dtype=object)
+    for i in range(N):
+        for j in range(N):
+            Rm[i, j] = R[i] if i == j else Sym.const(0.0)
+    S.prove_eq(mc, Cs + Rm, "marginal.cov = C + diag(softplus(noise-model output %d) + lower bound)" % index)
+    added = as_sym_arr(SH.get(mc)) - Cs
+    for i in range(N):
+        S.prove_ge(added[i, i], Sym.const(lb), "added noise[%d] >= the constraint's lower bound" % i)
+
+
 def dirichlet(S, learn):
     """DirichletClassificationLikelihood: stored noise / transformed targets = the documented functions of alpha = alpha_eps + onehot
        (alpha_eps symbolic), marginal adds that noise per class [+ learned noise]; call-time `targets` use the SAME alpha_eps"""
@@ -350,6 +386,7 @@ def likelihood_list(S, N1, N2):
 
 
 def scenarios(tier, seed):
+    extra_ = [("hetero_indices", dict(N=2, T=2, index=1, bound=0)), ("hetero_indices", dict(N=2, T=3, index=0, bound=0.2))]
     out = []
     def add(fn, **p):
         out.append({"sid": fn + ":" + ",".join("%s=%s" % kv for kv in sorted(p.items())), "fn": fn, "params": p})
@@ -395,4 +432,6 @@ def scenarios(tier, seed):
         for tr in (False, True):
             add("heteroskedastic", N=2, nn=2, noise_model_training=tr)
             add("heteroskedastic", N=3, nn=1, noise_model_training=tr)
+    for fn, prm in extra_:
+        add(fn, **prm)
     return out
